@@ -4042,6 +4042,8 @@ def write_pack_index_v1(
     Returns: The SHA of the written index file
     """
     f = SHA1Writer(f)
+    # the entries are walked twice: an iterator would be spent on the first
+    entries = list(entries)
     fan_out_table: dict[int, int] = defaultdict(lambda: 0)
     for name, _offset, _entry_checksum in entries:
         fan_out_table[ord(name[:1])] += 1
